@@ -324,7 +324,7 @@ def run_check(prop, spec, tier, base_seed, runs=None, workers=None, wall_s=None)
                             harness_problems, known_hits)
         os.makedirs(EVIDENCE, exist_ok=True)
         with open(os.path.join(EVIDENCE, f"{prop}.json"), "w") as f:
-            json.dump(ev, f, indent=1, sort_keys=True)
+            json.dump(_strict_json(ev), f, indent=1, sort_keys=True, allow_nan=False)
         cov = ev["coverage"]
         print(f"  runs={m['runs']} ok={m['ok']} inconclusive={m['inconclusive']} violations={m['violation']} "
               f"errors={m['error']} timeouts={m['timeout']} retried_ok={retried_ok} "
@@ -343,6 +343,17 @@ def run_check(prop, spec, tier, base_seed, runs=None, workers=None, wall_s=None)
         return rc
     finally:
         shutil.rmtree(scratch, ignore_errors=True)
+
+
+def _strict_json(o):
+    """Evidence files are strict JSON: non-finite floats (a sampled plan may hold a NaN duration) become strings."""
+    if isinstance(o, float) and (o != o or o in (float("inf"), float("-inf"))):
+        return "NaN" if o != o else ("Infinity" if o > 0 else "-Infinity")
+    if isinstance(o, dict):
+        return {k: _strict_json(v) for k, v in o.items()}
+    if isinstance(o, (list, tuple)):
+        return [_strict_json(v) for v in o]
+    return o
 
 
 def build_evidence(prop, spec, tier, base_seed, m, wall, wall_batch, workers, n_reported, retried_ok, harness_problems, known_hits):
